@@ -474,9 +474,28 @@ def _run_call(prog, call, pts, c, ex, style):
         return dict(ok=False, tag=_exc_tag(e), msg=str(e)[:200])
 
 
-def make_case(op, space, prog, calls, batch=(2,), style="mul", trainable=False, f64=False):
+def _run_call_history(prog, call, pts, c, ex, style):
+    """the SAME output tensor is handed to the operator three times: twice unchanged (the operator must not write into its
+    argument and must answer the same) and once after an in-place, differentiable update u *= 2 (twice the derivative)"""
+    try:
+        u = prog.build(pts, c, style)
+        before = u.detach().clone()
+        r1 = call.run(u, pts, ex)
+        after = u.detach().clone()
+        r2 = call.run(u, pts, ex)
+        u.mul_(2)
+        r3 = call.run(u, pts, ex)
+        return dict(ok=True, val=r1, shape=list(r1.shape), dtype=str(r1.dtype), val2=r2, val3=r3, u_before=before, u_after=after,
+                    shapes_ok=list(r2.shape) == list(r1.shape) == list(r3.shape))
+    except (EngineGap, Unwound, Infeasible):
+        raise
+    except Exception as e:
+        return dict(ok=False, tag=_exc_tag(e), msg=str(e)[:200])
+
+
+def make_case(op, space, prog, calls, batch=(2,), style="mul", trainable=False, f64=False, history=False):
     variant = ("traincat" if style == "cat" else "train") if trainable else ("f64" if f64 else style)
-    name = "%s/%s/%s/%s/b%s" % (op, space, variant, prog.label(), "x".join(str(b) for b in batch))
+    name = "%s/%s/%s/%s/b%s%s" % (op, space, variant, prog.label(), "x".join(str(b) for b in batch), "/same_output_three_times" if history else "")
     rows = list(np.ndindex(*batch))
     extras = {}
     for cl in calls:
@@ -497,8 +516,8 @@ def make_case(op, space, prog, calls, batch=(2,), style="mul", trainable=False, 
             out = {}
             for cl in calls:
                 exc = {n: ex[n][..., :w] if w != extras[n] else ex[n] for n, w in cl.extras}
-                r = _run_call(prog, cl, pts, c, exc, style)
-                if r["ok"] and not env.symbolic:
+                r = (_run_call_history if history else _run_call)(prog, cl, pts, c, exc, style)
+                if r["ok"] and not env.symbolic and not history:
                     # numeric row-independence probe: move every OTHER row of every per-row input, row i must not change
                     pert = []
                     for i, row in enumerate(rows):
@@ -540,6 +559,12 @@ def make_case(op, space, prog, calls, batch=(2,), style="mul", trainable=False, 
             if r["shape"] != want_shape:
                 continue
             scale = getattr(cl, "scale", 1)
+            if history:
+                yield "shapes_of_later_calls[%s]" % cl.label, bool(r["shapes_ok"])
+                fb, fa = list(_flat_vals(r["u_before"])), list(_flat_vals(r["u_after"]))
+                yield "operator_leaves_its_argument_unchanged[%s]" % cl.label, len(fb) == len(fa) and L.And(*[L.eq(a, b) for a, b in zip(fa, fb)])
+                if not r["shapes_ok"]:
+                    continue
             for ri, row in enumerate(rows):
                 def val(sym, row=row):
                     k, a = sym
@@ -561,6 +586,12 @@ def make_case(op, space, prog, calls, batch=(2,), style="mul", trainable=False, 
                     g_ = scale * got if scale != 1 else got
                     yield "value[%s,row%s,%s]" % (cl.label, _idx(row), _idx(idx)), L.eq(g_, want)
                     far.append(L.eq(g_, want, GAP if L.symbolic else GAP / 2))
+                    if history:
+                        g2, g3 = _at(_at(r["val2"], row), idx), _at(_at(r["val3"], row), idx)
+                        yield "second_call_on_same_output[%s,row%s,%s]" % (cl.label, _idx(row), _idx(idx)), L.eq(scale * g2 if scale != 1 else g2, want, GAP if L.symbolic else GAP / 2)
+                        yield "after_inplace_doubling[%s,row%s,%s]" % (cl.label, _idx(row), _idx(idx)), L.eq(scale * g3 if scale != 1 else g3, 2 * want, GAP if L.symbolic else GAP / 2)
+                if history:
+                    continue
                 # the same claim with a margin: implied by the exact cells above, but a counterexample of THIS goal is a
                 # robust witness (z3 answers the exact disequality with differences of 1e-18, which no float replay can show)
                 yield "value_gap[%s,row%s]" % (cl.label, _idx(row)), L.And(*far)
@@ -577,6 +608,14 @@ def make_case(op, space, prog, calls, batch=(2,), style="mul", trainable=False, 
     return Case(name, body, goals, family="%s/%s/%s" % (op, space, variant),
                 params=dict(op=op, space=space, template=prog.label(), batch=list(batch), style=style, trainable=trainable,
                             f64=f64, calls=[c.label for c in calls]))
+
+
+def _flat_vals(x):
+    if isinstance(x, (list, tuple)):
+        for y in x:
+            yield from _flat_vals(y)
+    else:
+        yield x
 
 
 def _idx(t):
@@ -696,7 +735,7 @@ SCALAR_OPS = ("grad", "normal_derivative", "laplacian", "partial")
 
 
 def scalar_family(space, templates, batch=(2,), ops=SCALAR_OPS, style="mul", trainable=False, f64=False, partial_len=3,
-                  atoms=()):
+                  atoms=(), history=False):
     cs = []
     seen = set()
     for tpl in templates:
@@ -705,7 +744,7 @@ def scalar_family(space, templates, batch=(2,), ops=SCALAR_OPS, style="mul", tra
         seen.add(tuple(tpl))
         for op in ops:
             prog = Prog(SPACES[space], [tpl], atoms=atoms)
-            cs.append(make_case(op, space, prog, scalar_calls(op, prog, partial_len), batch, style, trainable, f64))
+            cs.append(make_case(op, space, prog, scalar_calls(op, prog, partial_len), batch, style, trainable, f64, history=history))
     return cs
 
 
@@ -743,7 +782,7 @@ MAT22 = [("full", "full", "full", "full"), ("const", "lin0", "linL", "bil"), ("b
 MAT23 = [("full", "bil", "linL", "sq0", "mixed", "const"), ("sq0", "sq0", "sq0", "sq0", "sq0", "sq0")]
 
 
-def vector_case(op, space, keys, batch=(2,), style="mul", deg=2, f64=False, trainable=False, atoms=(), extra_terms=None):
+def vector_case(op, space, keys, batch=(2,), style="mul", deg=2, f64=False, trainable=False, atoms=(), extra_terms=None, history=False):
     P = pool(space, deg)
     comps = [list(P[k]) for k in keys]
     if extra_terms:
@@ -769,7 +808,7 @@ def vector_case(op, space, keys, batch=(2,), style="mul", deg=2, f64=False, trai
             calls = [c_sym_grad(prog, o) for o in perms]
         else:
             raise ValueError(op)
-    return make_case(op, space, prog, calls, batch, style, trainable, f64)
+    return make_case(op, space, prog, calls, batch, style, trainable, f64, history=history)
 
 
 def vector_family(tier):
@@ -905,6 +944,16 @@ def cases(tier):
     cs += scalar_family("x1t1", [B2], f64=True)
     cs += scalar_family("x2", [B2], f64=True)
     cs += vector_family(tier)
+    # ---- history: the same output tensor handed to an operator repeatedly, and after an in-place update ----
+    cs += scalar_family("x1t1", [B2, [(2, 0), (1, 1)]], history=True)
+    cs += scalar_family("x2", [B2], history=True)
+    for op, space, keys in (("jac", "x2", VEC2[0]), ("div", "x1t1", VEC2[3]), ("matrix_div", "x2", MAT22[0]), ("sym_grad", "x2", VEC2[1]),
+                            ("convective", "x1t1", VEC2[0]), ("rot", "x3", VEC3[2])):
+        cs.append(vector_case(op, space, keys, history=True))
+    if thorough:
+        cs += scalar_family("x1t1", [B2], history=True, style="cat")
+        cs.append(vector_case("matrix_div", "x1t1", MAT22[1], history=True, trainable=True))
+        cs.append(vector_case("jac", "x1y1z1", VEC3[3], history=True))
     if thorough:
         # degree 3: all 1023 subsets of the 10 monomials in (x, t); the degree-2 subsets are already above
         B3 = basis(2, 3)
